@@ -30,6 +30,8 @@ ModeOK(e) == ("mode" \in DOMAIN e) => (iters'[e.it].mode = e.mode)
 Step(e) ==
   CASE e.op = "reset"     -> scanners' = <<>> /\ iters' = <<>> /\ cache' = {}
     [] e.op = "build"     -> Build(e.cfg, e.cached, e.ok)
+    \* a thread obtains a reference to a scanner another thread built from configuration e.cfg (C14)
+    [] e.op = "share"     -> Build(e.cfg, FALSE, TRUE)
     [] e.op = "newiter"   -> NewIter(e.sc, e.inp, e.off)
     [] e.op = "next"      -> DoNext(e.it, e.res) /\ ModeOK(e)
     [] e.op = "nextpos"   -> DoNextPos(e.it, e.res, e.sp, e.ep) /\ ModeOK(e)
